@@ -24,7 +24,7 @@ def role_of_name(s):
 def roles_of(e, roles):
     out = set()
     for n in ast.walk(e):
-        if isinstance(n, ast.Attribute) and isinstance(n.value, ast.Name) and n.value.id == "args":
+        if isinstance(n, ast.Attribute) and isinstance(n.value, ast.Name) and n.value.id == cli.ARGS:
             r = role_of_name(n.attr)
             if r:
                 out.add(r)
@@ -275,7 +275,7 @@ def r14b(ctx, f, specs, groups):
 
         def evd(over):
             env = cli.default_env(specs)
-            env.update({f"args.{k}": v for k, v in over.items()})
+            env.update({f"{cli.ARGS}.{k}": v for k, v in over.items()})
             try:
                 return cli.ev(optd, env)
             except cli.Unknown as u:
@@ -451,12 +451,12 @@ def r14d(ctx, f, specs):
                                                              f"{sorted(allowed_methods)} / the error test")
     # formatter selection
     sel = [n for n in walk_no_nested(fn) if isinstance(n, ast.Assign) and isinstance(n.targets[0], ast.Name)
-           and n.targets[0].id == "formatter"]
+           and isinstance(n.value, ast.Call) and ast.unparse(n.value).endswith("get_default_formatter()")]
     for n in sel:
         conds = flatten_conditions(dominating_conditions(n))
         txt = ast.unparse(n.value)
-        fmt_given = [pol for t, pol in conds if "args.format" in ast.unparse(t)]
-        if "args.format" in txt and "FILETYPES_BY_TYPENAME" in txt and txt.endswith("get_default_formatter()"):
+        fmt_given = [pol for t, pol in conds if f"{cli.ARGS}.format" in ast.unparse(t)]
+        if f"{cli.ARGS}.format" in txt and "FILETYPES_BY_TYPENAME" in txt and txt.endswith("get_default_formatter()"):
             good = fmt_given and fmt_given[0] is True
         elif txt.endswith("get_default_formatter()") and "from" in txt.split(".")[0]:
             good = fmt_given and fmt_given[0] is False
@@ -470,7 +470,7 @@ def r14d(ctx, f, specs):
                           f"not (--format's default formatter if given else the first file type's)")
     # every args.X read must be a declared dest; every declared flag with a non-None default in an exclusive group
     for n in walk_no_nested(fn):
-        if isinstance(n, ast.Attribute) and isinstance(n.value, ast.Name) and n.value.id == "args":
+        if isinstance(n, ast.Attribute) and isinstance(n.value, ast.Name) and n.value.id == cli.ARGS:
             if n.attr not in specs:
                 ctx.violation("R14d", f.file, "main", n, f"args.{n.attr}", f"main reads args.{n.attr} but no option declares that dest")
     call = cli.build_options_call(fn)
